@@ -26,6 +26,7 @@ import (
 	"math/big"
 	"os"
 	"path/filepath"
+	"regexp"
 	"sort"
 	"strconv"
 	"strings"
@@ -483,6 +484,45 @@ func genRyu() string {
 
 // ------------------------------------------------------------------ output
 
+// withFallbacks appends, for every top-level Definition of the golden file that the freshly generated content
+// lacks, the golden definition (in golden order, before the first generated definition that could mention it is
+// not needed: fallbacks are only ever constants/kernels that later definitions refer to by name, so they are
+// inserted right after the header).
+func withFallbacks(content, goldenPath string) string {
+	g, err := os.ReadFile(goldenPath)
+	if err != nil {
+		return content
+	}
+	defRe := regexp.MustCompile(`(?m)^Definition ([A-Za-z0-9_']+)[ :]`)
+	have := map[string]bool{}
+	for _, m := range defRe.FindAllStringSubmatch(content, -1) {
+		have[m[1]] = true
+	}
+	gs := string(g)
+	locs := defRe.FindAllStringSubmatchIndex(gs, -1)
+	var missing []string
+	for i, l := range locs {
+		name := gs[l[2]:l[3]]
+		if have[name] {
+			continue
+		}
+		end := len(gs)
+		if i+1 < len(locs) {
+			end = locs[i+1][0]
+		}
+		missing = append(missing, "(* FALLBACK "+name+": not derivable from the current source; value of the last validated tree *)\n"+strings.TrimRight(gs[l[0]:end], "\n")+"\n")
+	}
+	if len(missing) == 0 {
+		return content
+	}
+	// insert before the first generated Definition (after the header / imports)
+	first := defRe.FindStringIndex(content)
+	if first == nil {
+		return content + "\n" + strings.Join(missing, "")
+	}
+	return content[:first[0]] + strings.Join(missing, "") + content[first[0]:]
+}
+
 func writeIfChanged(path, content string) {
 	old, err := os.ReadFile(path)
 	if err == nil && bytes.Equal(old, []byte(content)) {
@@ -496,6 +536,8 @@ func writeIfChanged(path, content string) {
 func main() {
 	out := flag.String("out", "", "output directory (coq/Gen)")
 	flag.StringVar(&repo, "repo", "/repo", "qframe working tree")
+	golden := flag.String("golden", "", "directory with the golden copy of the generated files (fallback definitions)")
+	updateGolden := flag.String("update-golden", "", "write the generated files to this golden directory as well")
 	flag.Parse()
 	if *out == "" {
 		fmt.Fprintln(os.Stderr, "missing -out")
@@ -508,9 +550,20 @@ func main() {
 		"GenRyu.v":     genRyu(),
 		"GenKernels.v": genKernels(),
 	}
-	// Files are written even when problems were found (with whatever could be generated) so that
-	// the directed search can still build; the exit status tells ./check that the tie is broken.
+	// Files are written even when problems were found so that the directed search can still build: every
+	// definition that could not be derived from the current source is taken from the golden copy (the output
+	// for the last tree the model was validated against, tools/qf2coq/golden/) and marked FALLBACK; the exit
+	// status still tells ./check that the tie is broken.
+	if *updateGolden != "" {
+		os.MkdirAll(*updateGolden, 0o755)
+		for n, c := range files {
+			writeIfChanged(filepath.Join(*updateGolden, n), c)
+		}
+	}
 	for n, c := range files {
+		if *golden != "" {
+			c = withFallbacks(c, filepath.Join(*golden, n))
+		}
 		writeIfChanged(filepath.Join(*out, n), c)
 	}
 	if len(problems) > 0 {
